@@ -68,6 +68,7 @@ func init() {
 		e.P("def onSetupLadder : List (String × String) := %s", ladder(e, FuncDecl(sess, "Session", "onSetup"), "onSetupLadder"))
 		e.P("def wspOnSetupLadder : List (String × String) := %s", ladder(e, FuncDecl(wsp, "Session", "onSetup"), "wspOnSetupLadder"))
 		e.P("def wspOnPlayLadder : List (String × String) := %s", ladder(e, FuncDecl(wsp, "Session", "onPlay"), "wspOnPlayLadder"))
+		e.P("def wspOnDescribeLadder : List (String × String) := %s", ladder(e, FuncDecl(wsp, "Session", "onDescribe"), "wspOnDescribeLadder"))
 
 		// roles: tracked calls in source order
 		for _, fn := range []string{"asTCPConsumer", "asUDPConsumer", "asMulticastConsumer", "asTCPPusher"} {
